@@ -72,6 +72,25 @@ def case_reader(case):
     want_h = [re.sub(r"[;,|\t`]", "", c.strip()) for c in first] if first else []
     if list(out["headers"] or []) != want_h:
         res["oracle"].append({"what": "headers are not the cleaned cells of the first non-blank record", "got": out["headers"], "want": want_h})
+    # the same headers when the CsvPath is made by a CsvPaths: first with an empty header cache, then (a new instance) with the
+    # cache the first one wrote
+    if first:
+        import shutil
+        from csvpath import CsvPaths
+
+        shutil.rmtree("cache", ignore_errors=True)
+        for temp in ("cold", "warm"):
+            try:
+                cps = CsvPaths(delimiter=case["delim"], quotechar=case["quote"])
+                p2 = cps.csvpath()
+                p2.parse(f"${path}[*][yes()]")
+                got_h = list(p2.headers or [])
+            except Exception as e:  # noqa: BLE001
+                got_h = f"raised {e.__class__.__name__}"
+            if got_h != want_h:
+                res["oracle"].append({"what": f"headers of a CsvPaths-created CsvPath ({temp} header cache) are not the cleaned cells of the first non-blank record",
+                                      "got": got_h, "want": want_h})
+                break
     if m["headers"] != list(out["headers"] or []):
         res["disagree"].append({"what": "reader: headers", "real": out["headers"], "model": m["headers"]})
     if case["named"] and first:
